@@ -170,6 +170,41 @@ ENGINE_EXTRA = {"C19": " + E5 race detector", "C13": " + E5 race detector", "C12
 TECH_EXTRA = {"C19": "; Go race detector on lookups concurrent with mapping updates", "C13": "; Go race detector on simultaneous connections of one peer (anchors: key-exchange state, setup state machine, ping handlers)",
               "C04": "; scripted client with real keys (universe-auth mirror, sequential completion of two parallel connections)", "C03": "; session-event histories (counter wrap, hostile key setups)"}
 
+# Round 5 additions (virtual time, concurrency monitors, multi-round histories, whole-process cases).
+EXTRA5 = {
+ "C01": " One caller reusing its ignore list (the same slice) across generator calls with different acceptable sets.",
+ "C02": " Isolation of independent exchanges after one, two and three key rollovers each.",
+ "C03": " Sessions looked up through State.GetSession for every delivery, with the passage of time (hook VerifAdvanceTime) and cleaner ticks (VerifHousekeeping) between deliveries, always less than the idle lifetime since the last use; signed frames whose timestamps lie milliseconds, hours, days and a year apart.",
+ "C04": " A replayed message at a router that has seen it before must stop the handshake right there (what the router sends next is decoded: only an error notice is allowed), tried three times in a row against the same router; genuine requests of a known peer dated seconds, hours, days and a year before its last accepted handshake.",
+ "C05": " Frames carry arbitrary TTL and flow-control bytes (all 8 bits). The double-dial scenario (a link that comes up while another connection of the same peer used the shared key-exchange state) with the clear-text search.",
+ "C06": " Quiet time (11 s, 61 s, 11 min through VerifAdvanceTime, with and without a cleaner tick) between the refusal and the retries; the very same connection again.",
+ "C07": " Right after every authentic ping that changed something about its source (keys dropped or replaced, offline, routes removed) earlier frames of that source are replayed. Exact copies of one genuine ping handled by parallel workers of a router that holds only the stored record of the sender (session dropped by the cleaner), with the storage lookup slowed down (env.SlowStorage): at most one copy may be handled.",
+ "C08": " A spliced announcement delivered while genuine announcements of the other origin are being verified by parallel workers (plain and race-detector build); a re-announcement over the same relays with other signed values (relay latencies swapped, total unchanged): if the router forwards it, its route must list the values signed in it.",
+ "C09": " Meshes that live through 5-6 announcement rounds with latency changes (one link monotonically down, then up) and routers joining late; link sets that change from inside a link's Send, i.e. between two iterations of a forwarding loop (per-handling fan-out oracle: every peer linked before and after gets the forward exactly once).",
+ "C10": " Meshes whose central router runs in lite mode (line of 3, stars).",
+ "C11": " Concurrent churn: lookups of stable destinations while other goroutines add, remove and clean around them (every lookup must return exactly that destination; no panic), peer routes added/removed while Clean runs (no update may be lost), plain and race-detector build.",
+ "C12": " One frame object through its whole life: rotations at every hop, appendix grown on the way (up to 9 KB), turned into a reply of 16..6000 bytes in place, rotations back - after every step the bytes on the wire must carry the block a plain slice holds after the same rotations. Traversal through the running worker pools of the switches (Switch.Start, frames fed through the real input channel).",
+ "C13": " A neighbour behind a real link stops reading (frozen reader on a TCP connection) while the authenticated peer sends 14000-30000 transit frames of both classes for it.",
+ "C14": " The second initiator starts at a point the schedule chooses (only if it does not consider encryption established then); authentic 'no encryption keys' error pings from either side as schedule actions; deliver-only spaces searched depth-first and sampled.",
+ "C15": " Both directions of one pair wrap, in every order of 2..3 (thorough 2..5) wrap events, for the end-to-end pair and the derived link-layer pair; keys compared at the end.",
+ "C16": " Quiescence is structural: a link counts as closed when it has closed its connection (after unregistering). The routing table's Clean runs in a loop concurrently with a connect or close of the same router.",
+ "C18": " Generations: one state file through several runs that each change exactly one thing (lookups only, delete one mapping, delete one router, save one, prune, nothing). Whole-router cases: mycoria.New+Start on the state path, new state through the instance's storage, SIGKILL before shutdown or RLIMIT_FSIZE during it, then reload and start again. The new state a crashed child reached is judged against that child's own dump.",
+ "C19": " Learned names asked for continuously while they are re-mapped and deleted (final answers must equal the last write); restart generations on the JSON state file (delete-only, re-map-only, add-only, no change).",
+ "C20": " A listener that sees 48 probes, garbage streams and half handshakes before the peer dials in.",
+}
+for k, v in EXTRA5.items():
+    EXTRA[k] = EXTRA.get(k, "") + v
+ENGINE_EXTRA["C08"] = ENGINE_EXTRA.get("C08", "") + " + E5 race detector"
+ENGINE_EXTRA["C18"] = " + whole-router child processes"
+TECH_EXTRA["C08"] = "; concurrent deliveries by parallel workers, Go race detector anchored on the announcement verification code"
+TECH_EXTRA["C07"] = "; virtual time hooks (session cleaner) and an interposed slow storage for concurrent copies of one ping"
+TECH_EXTRA["C11"] = "; concurrent churn invariant monitor (stable destinations, no lost update under Clean)"
+TECH_EXTRA["C03"] = TECH_EXTRA.get("C03", "") + "; session lifetime histories under virtual time"
+TECH_EXTRA["C06"] = "; virtual time between refusal and retry"
+TECH_EXTRA["C12"] = "; running switch worker pools (vmesh live mode)"
+TECH_EXTRA["C09"] = "; multi-round histories; re-entrant link changes inside the forwarding loop with a per-handling fan-out oracle"
+TECH_EXTRA["C16"] = "; routing-table housekeeping concurrent with link events"
+
 NOT_YET = "check not implemented yet in this revision of /verif (work in progress; see DESIGN.md §8)"
 
 def main():
